@@ -9,7 +9,7 @@ from typing import Awaitable, Callable, Union, cast
 
 from x690 import decode
 from x690.types import Integer, Null, ObjectIdentifier, OctetString, Sequence
-from x690.util import INDENT_STRING
+from x690.util import INDENT_STRING, get_value_slice
 
 import puresnmp.plugins.auth as auth
 import puresnmp.plugins.priv as priv
@@ -51,6 +51,29 @@ def reset_digest(message: Message) -> Message:
         security_parameters=bytes(neutral),
     )
     return output
+
+
+def reset_raw_digest(data: bytes) -> bytes:
+    """
+    Replace the message-digest inside the raw octets of a received SNMPv3
+    message with zeroes, leaving every other octet untouched.
+
+    See https://tools.ietf.org/html/rfc3414#section-6.3.2
+    """
+    message = get_value_slice(data, 0).bounds
+    # skip msgVersion and msgGlobalData
+    index = get_value_slice(data, message.start).next_value_index
+    index = get_value_slice(data, index).next_value_index
+    # msgSecurityParameters: an OCTET STRING wrapping a SEQUENCE
+    secparams = get_value_slice(data, index).bounds
+    index = get_value_slice(data, secparams.start).bounds.start
+    # skip engine-id, engine-boots, engine-time and user-name
+    for _ in range(4):
+        index = get_value_slice(data, index).next_value_index
+    digest = get_value_slice(data, index).bounds
+    if digest.stop - digest.start != 12:
+        raise AuthenticationError("Message digest must be 12 octets long!")
+    return data[: digest.start] + b"\x00" * 12 + data[digest.stop :]
 
 
 class USMError(SnmpError):
@@ -320,10 +343,15 @@ def verify_authentication(
         )
 
     auth_method = auth.create(credentials.auth.method)
-    without_digest = reset_digest(message)
+    if message.raw:
+        # The digest covers the octets as they were sent. Re-encoding the
+        # message may produce different (but equivalent) length octets.
+        without_digest = reset_raw_digest(message.raw)
+    else:
+        without_digest = bytes(reset_digest(message))
     is_authentic = auth_method.authenticate_incoming_message(
         credentials.auth.key,
-        bytes(without_digest),
+        without_digest,
         security_params.auth_params,
         security_params.authoritative_engine_id,
     )
